@@ -194,6 +194,22 @@ def r08e(ctx):
         "tokenize(*args) under ensure-deterministic=True" if ok else "does not tokenize all arguments under tokenize.ensure-deterministic=True",
     )
 
+    # dask tokenizes a dict by its SORTED items; operands whose dict order decides the result (the column order of an
+    # aggregation spec) need an order-preserving form before they are tokenized: the arguments must pass through a helper of
+    # the package that rebuilds dicts from `.items()` in iteration order
+    ordered = False
+    vararg = fn.args.vararg.arg if fn.args.vararg else None
+    for a_ in (x for x in ast.walk(fn) if isinstance(x, ast.Assign)):
+        if vararg and any(isinstance(t, ast.Name) and t.id == vararg for t in a_.targets):
+            for c_ in (x for x in ast.walk(a_.value) if isinstance(x, ast.Call) and isinstance(x.func, ast.Name)):
+                r_ = model.resolve_name(mod, c_.func.id)
+                if r_ is not None and r_[0] == "func":
+                    body = r_[2]
+                    has_items = any(isinstance(x, ast.Call) and isinstance(x.func, ast.Attribute) and x.func.attr == "items" for x in ast.walk(body))
+                    no_sort = not any(isinstance(x, ast.Call) and dotted(x.func) in ("sorted", "set", "frozenset") for x in ast.walk(body))
+                    tests_dict = any(isinstance(x, ast.Name) and x.id == "dict" for x in ast.walk(body))
+                    ordered = ordered or (has_items and no_sort and tests_dict)
+    (ctx.ok if ordered else ctx.bad)("_util._tokenize_deterministic:dict-order", mod.loc(fn), "dict operands are tokenized in iteration order" if ordered else "dict operands are tokenized by their sorted items: two expressions whose dict operand differs only in order (groupby.agg specs, dtypes of timeseries) share a name although the order decides the result")
     # normalize_token registrations
     regs = []
     for m in model.modules.values():
